@@ -1,7 +1,8 @@
 (* Properties/C01.v — degree-preserving rewiring keeps every node's degree and the weight multiset.
    Statements only; proofs are `exact <lemma>` of Proofs/Rewire*.v.
    Model: Model/Rewire.v (one engine for randmio_dir/_dir_connected/_und/_und_connected, latmio_dir/
-   _dir_connected/_und/_und_connected, randomize_graph_partial_und; the swap of randomizer_bin_und).
+   _dir_connected/_und/_und_connected, randomize_graph_partial_und), Model/RewireBin.v (the whole of randomizer_bin_und),
+   Model/RewireSpec.v (the swap tables and their interpreter attempt_tab).
    "Every seed" = every stream of draws [s0].  A call ends in one of four distinguishable ways (Model/Rewire.v: outcome):
    Rejected (BCTParamError of the input checks), Raises (ZeroDivisionError for n < 2, ValueError of randint(0)),
    StreamEnd (the stream does not fit / is used up — also how the model follows a loop of the code that never ends) or
@@ -175,6 +176,22 @@ Theorem C01_rgpu_is_table : forall (B : mat Z) k st s,
   attempt_tab spec_partial_und B no_guard k st s = attempt (mkvar true (mask_guard B)) k st s.
 Proof. exact attempt_tab_partial. Qed.
 
+(* randomizer_bin_und, the same two-step tie for the state-changing core of its loop: the eight constant cell writes of the
+   swap (in source order, one block, no other write to a cell named by a, b, c, d), the two hole tests and the mate test are
+   read off the source on every run and equal the model's table ... *)
+Theorem C01_rbu_source_table :
+  (list_eqb cwrite_eqb source_rbu_writes rbu_writes_std && list_eqb stest_eqb source_rbu_tests rbu_tests_std &&
+   Z.eqb source_rbu_mate rbu_mate_std)%bool = true.
+Proof. exact src_rbu_ok. Qed.
+
+(* ... and the model's swap, hole search and mate search are the interpretation of that table.  (The rest of the routine —
+   complement, full-node masking, the patch loop, the draws — is tied by stream replay only.) *)
+Theorem C01_rbu_is_table : forall R a b c d,
+  rbu_swap R a b c d = exec_cwrites (mkenv a b c d) rbu_writes_std R /\
+  (forall n, common_holes n R a b = filter (fun x => eval_tests (mkenv a b c d) R x rbu_tests_std) (seq 0 n)) /\
+  (forall h, mates R h = flat_map (fun u => flat_map (fun v => if Z.eqb (R u v) rbu_mate_std then [(u, v)] else []) h) h).
+Proof. exact rbu_is_table. Qed.
+
 (* non-vacuity: a recorded run of the implementation (randmio_und, 5-node ring, itr=1, seed 7) replayed by the model:
    four accepted swaps, all draws consumed *)
 Example C01_nonvacuous :
@@ -211,3 +228,5 @@ Print Assumptions C01_und_selfloop_refuted.
 Print Assumptions C01_source_table.
 Print Assumptions C01_engine_is_table.
 Print Assumptions C01_rgpu_is_table.
+Print Assumptions C01_rbu_source_table.
+Print Assumptions C01_rbu_is_table.
